@@ -208,8 +208,19 @@ def _sat(lo, hi, ne, wop, wc):
     return False
 
 
+# proven invariants of persistent fields (E3), installed by a rule after it has proved them: [(compiled regex, lo, hi)]
+AXIOM_BOUNDS = []
+
+
 def d_bounds(d, lkey):
     cs = [(f.op, f.key[2]) for f in d if f.kind == "cmp" and f.key[0] == lkey and isinstance(f.key[2], int)]
+    if AXIOM_BOUNDS and isinstance(lkey, str):
+        for rx, lo, hi in AXIOM_BOUNDS:
+            if rx.match(lkey):
+                if lo is not None:
+                    cs.append((">=", lo))
+                if hi is not None:
+                    cs.append(("<=", hi))
     return _bounds(cs)
 
 
@@ -968,6 +979,27 @@ class Analysis:
                         new.add(g.fact)
         return frozenset(new)
 
+    def unsigned_compare(self, b, si):
+        """(fact, key of the signed operand) for a two-way branch on a comparison in which a signed value was converted
+        to unsigned and which cond_facts therefore left out (`>`, `>=` on the signed side): usable on disjuncts that
+        know the value is non-negative."""
+        t = b.term
+        if not t or "cond" not in t or len(b.succs) != 2 or t.get("kind") == "SwitchStmt":
+            return None
+        c = sk(t["cond"])
+        if c is None or c.get("k") != "Bin" or c["op"] not in ("<", "<=", ">", ">="):
+            return None
+        from .sym import _conv_signed
+        cl, cr = _conv_signed(c["a"][0]), _conv_signed(c["a"][1])
+        if cl == cr:
+            return None
+        l, r = _val(c["a"][0]), _val(c["a"][1])
+        op = c["op"] if si == 0 else NEG[c["op"]]
+        x = l if cl else r
+        if not is_pure(l) or not is_pure(r):
+            return None
+        return Fact(op, l, r), pp(sk(x))
+
     def edge_facts(self, b, si):
         """Facts generated on the si-th successor edge of block b."""
         t = b.term
@@ -1031,9 +1063,15 @@ class Analysis:
                 if s is None:
                     continue
                 ef = self.edge_facts(b, si)
+                su = self.unsigned_compare(b, si)
                 eds = set()
                 for d in out:
-                    d2 = self.apply_edge(d, ef) if ef else d
+                    ef_d = ef
+                    if su is not None and d_holds(d, ">=", su[0].l if False else su[1], 0):
+                        # a signed value compared as unsigned, but known not to be negative here: the comparison
+                        # means what it says
+                        ef_d = list(ef) + [su[0]]
+                    d2 = self.apply_edge(d, ef_d) if ef_d else d
                     if not d_contradictory(d2):
                         eds.add(d2)
                 EDGE[(bid, si)] = eds
